@@ -10,33 +10,5 @@ for i in 01 02 03 04 05 06 07 08 09 10 11 12 13 14 15 16 17 18 19 20; do
   bin/check C$i $TIER > build-cov/run-C$i.log 2>&1; echo "C$i rc=$?"
 done
 bin/extras all $TIER > build-cov/run-extras.log 2>&1; echo "extras rc=$?"
-mkdir -p build-cov/gcov && cd build-cov/gcov
-for d in ../lib-plain-* ../bin-*-plain-*; do
-  for o in "$d"/*.gcda; do [ -f "$o" ] && gcov -p -o "$d" "$o" >/dev/null 2>&1; done
-done
-python3 - <<'P'
-import glob, re, collections
-hit = collections.defaultdict(dict)
-for f in glob.glob("*.gcov"):
-    src = None
-    for ln in open(f, errors="replace"):
-        m = re.match(r"\s*([^:]+):\s*(\d+):(.*)", ln)
-        if not m: continue
-        c, n, t = m.group(1).strip(), int(m.group(2)), m.group(3)
-        if n == 0:
-            if t.startswith("Source:"): src = t[7:]
-            continue
-        if src is None or "/repo/" not in src and "ipr-" not in src: continue
-        if c == "-": continue
-        e = 0 if c.startswith("#") or c.startswith("=") else 1
-        hit[src][n] = max(hit[src].get(n, 0), e)
-with open("../uncovered.txt", "w") as out:
-    for src in sorted(hit):
-        un = sorted(n for n, e in hit[src].items() if not e)
-        tot = len(hit[src])
-        out.write("%s: %d of %d executable lines never reached\n" % (src, len(un), tot))
-        lines = open(src, errors="replace").read().split("\n") if un else []
-        for n in un:
-            out.write("   %5d: %s\n" % (n, lines[n - 1] if n - 1 < len(lines) else ""))
-print(open("../uncovered.txt").read()[:200])
-P
+git checkout extras/ 2>/dev/null
+python3 tools/coverage_report.py
